@@ -1014,6 +1014,56 @@ Qed.
 
 (* the whole path of ELFFile._read_dwarf_section with relocation enabled, on an image that contains
    the section, its relocation table (REL or RELA per the section type) and the linked symbol table *)
+(* the structural part: the section, its relocation table and the symbol table located in the image;
+   what remains is the apply loop over the encoded table, with S read from the encoded symbols *)
+Lemma read_dwarf_to_loop le is64 em img secs section rs symtab (rela : bool) es syms
+        pre tail pre2 tail2 :
+  find_relocations_for_section secs (s_name section) = Some rs ->
+  s_type rs = (if rela then SHT_RELA else SHT_REL) ->
+  s_entsize rs = rel_entsize is64 (is64 && is_mips em) rela ->
+  nth_error secs (Z.to_nat (s_link rs)) = Some symtab ->
+  s_entsize symtab = sym_entsize is64 -> s_size symtab = zlen (encode_symtab le is64 syms) ->
+  img = pre ++ encode_table le is64 (is64 && is_mips em) rela es ++ tail ->
+  s_off rs = zlen pre -> s_size rs = zlen (encode_table le is64 (is64 && is_mips em) rela es) ->
+  img = pre2 ++ encode_symtab le is64 syms ++ tail2 -> s_off symtab = zlen pre2 ->
+  forallb (sym_wf is64) syms = true ->
+  forallb (rent_wf is64 (is64 && is_mips em) rela) es = true ->
+  let data := firstn (Z.to_nat (s_size section)) (zskipn (s_off section) img) in
+  read_dwarf_section le is64 em img secs section true
+  = apply_loop le is64 em (rel_struct le is64 (is_mips em) rela)
+               (pre ++ encode_table le is64 (is64 && is_mips em) rela es ++ tail) (zlen pre)
+               (zlen (map snd syms)) (symtab_value le is64 img (zlen pre2) (sym_entsize is64))
+               (length es) 0 data
+  /\ (forall n, 0 <= n < zlen (map snd syms) ->
+       symtab_value le is64 img (zlen pre2) (sym_entsize is64) n = Ok (nth (Z.to_nat n) (map snd syms) 0)).
+Proof.
+  intros Hfind Htype Hent Hlink Hsent Hssize Himg Hroff Hrsize Himg2 Hsoff Hswf Hwf data.
+  split.
+  - unfold read_dwarf_section. rewrite Hfind. fold data.
+    assert (Hrela : (s_type rs =? SHT_RELA) = rela) by (rewrite Htype; destruct rela; reflexivity).
+    rewrite Hrela, reloc_section_check_exact, Hent, Z.eqb_refl. cbn [bind].
+    unfold apply_section_relocations. rewrite Hrela, Hlink, Hsent.
+    replace (negb (0 <? sym_entsize is64)) with false by (destruct is64; reflexivity).
+    assert (Hnsyms : symtab_num (s_size symtab) (sym_entsize is64) = zlen (map snd syms)).
+    { unfold symtab_num. rewrite Hssize. unfold encode_symtab.
+      assert (Hl : forall l, zlen (concat (map (fun p => encode_sym le is64 (fst p) (snd p)) l)) = zlen l * sym_entsize is64).
+      { induction l as [|p l IHl]; [reflexivity|]. cbn [map concat]. rewrite zlen_app, zlen_cons, IHl, encode_sym_length. lia. }
+      rewrite Hl. unfold zlen at 2. rewrite map_length. fold (zlen syms).
+      assert (0 < sym_entsize is64) by (destruct is64; reflexivity). nia. }
+    rewrite Hnsyms.
+    assert (Hnum : Z.to_nat (num_relocations (rel_struct le is64 (is_mips em) rela) (s_size rs)) = length es).
+    { rewrite Hrsize. replace (zlen (encode_table le is64 (is64 && is_mips em) rela es))
+        with (zlen (encode_table le is64 (is64 && is_mips em) rela es) + 0) by lia.
+      rewrite num_relocations_exact; [unfold zlen; lia | exact Hwf |].
+      pose proof (rel_entsize_pos is64 (is64 && is_mips em) rela). lia. }
+    rewrite Hnum, Hroff, Hsoff. rewrite Himg at 1. reflexivity.
+  - intros n Hn. rewrite Himg2.
+    replace n with (Z.of_nat (Z.to_nat n)) at 1 by lia.
+    unfold zlen in Hn. rewrite map_length in Hn.
+    rewrite (symtab_value_exact le is64 tail2 syms pre2 (Z.to_nat n) (0, 0)) by (try assumption; lia).
+    f_equal. exact (eq_sym (map_nth snd syms (0, 0) (Z.to_nat n))).
+Qed.
+
 Theorem read_dwarf_section_exact le is64 em img secs section rs symtab (rela : bool) es syms
         pre tail pre2 tail2 :
   In em listed_machines ->
@@ -1034,30 +1084,10 @@ Theorem read_dwarf_section_exact le is64 em img secs section rs symtab (rela : b
   = spec_apply_all le is64 em rela (map snd syms) data es.
 Proof.
   intros Hem Hfind Htype Hent Hlink Hsent Hssize Himg Hroff Hrsize Himg2 Hsoff Hswf Hs0 Hwf data Hb Hlen Hawf.
-  unfold read_dwarf_section. rewrite Hfind. fold data.
-  assert (Hrela : (s_type rs =? SHT_RELA) = rela) by (rewrite Htype; destruct rela; reflexivity).
-  rewrite Hrela, reloc_section_check_exact, Hent, Z.eqb_refl. cbn [bind].
-  unfold apply_section_relocations. rewrite Hrela, Hlink, Hsent.
-  replace (negb (0 <? sym_entsize is64)) with false by (destruct is64; reflexivity).
-  assert (Hnsyms : symtab_num (s_size symtab) (sym_entsize is64) = zlen (map snd syms)).
-  { unfold symtab_num. rewrite Hssize. unfold encode_symtab.
-    assert (Hl : forall l, zlen (concat (map (fun p => encode_sym le is64 (fst p) (snd p)) l)) = zlen l * sym_entsize is64).
-    { induction l as [|p l IHl]; [reflexivity|]. cbn [map concat]. rewrite zlen_app, zlen_cons, IHl, encode_sym_length. lia. }
-    rewrite Hl. unfold zlen at 2. rewrite map_length. fold (zlen syms).
-    assert (0 < sym_entsize is64) by (destruct is64; reflexivity). nia. }
-  rewrite Hnsyms.
-  assert (Hnum : Z.to_nat (num_relocations (rel_struct le is64 (is_mips em) rela) (s_size rs)) = length es).
-  { rewrite Hrsize. replace (zlen (encode_table le is64 (is64 && is_mips em) rela es))
-      with (zlen (encode_table le is64 (is64 && is_mips em) rela es) + 0) by lia.
-    rewrite num_relocations_exact; [unfold zlen; lia | exact Hwf |].
-    pose proof (rel_entsize_pos is64 (is64 && is_mips em) rela). lia. }
-  rewrite Hnum, Hroff. rewrite Himg at 1.
+  destruct (read_dwarf_to_loop le is64 em img secs section rs symtab rela es syms pre tail pre2 tail2
+              Hfind Htype Hent Hlink Hsent Hssize Himg Hroff Hrsize Himg2 Hsoff Hswf Hwf) as [Hloop Hsv].
+  rewrite Hloop.
   apply apply_loop_refines; try assumption.
-  - intros n Hn. rewrite Himg2, Hsoff.
-    replace n with (Z.of_nat (Z.to_nat n)) at 1 by lia.
-    unfold zlen in Hn. rewrite map_length in Hn.
-    rewrite (symtab_value_exact le is64 tail2 syms pre2 (Z.to_nat n) (0, 0)) by (try assumption; lia).
-    f_equal. exact (eq_sym (map_nth snd syms (0, 0) (Z.to_nat n))).
   - transitivity (snd (nth 0 syms (0, 0))); [exact (map_nth snd syms (0, 0) 0%nat) | exact Hs0].
   - lia.
 Qed.
@@ -1265,4 +1295,127 @@ Theorem read_dwarf_file_refines le is64 em img e_shoff table section flag :
   = read_dwarf_section le is64 em img table section flag.
 Proof.
   intros H1 H2 H3. unfold read_dwarf_section_file. rewrite sections_all_visible by assumption. reflexivity.
+Qed.
+
+(* ------------------------------------------------------------------ machines outside the supported set *)
+(* no row of the psABI table speaks about a machine that is not listed *)
+Lemma psabi_unlisted em rela typ : ~ In em listed_machines -> psabi_lookup em rela typ = None.
+Proof.
+  intros H. unfold psabi_lookup.
+  assert (Hrow : forall t, (forall m r ty nm n f, In (m, r, ty, nm, n, f) t -> In m listed_machines) ->
+                           psabi_find t em rela typ = None).
+  { induction t as [|[[[[[m r] ty] nm] n] f] t IH]; intros Ht; [reflexivity|].
+    cbn [psabi_find]. destruct (Z.eqb_spec m em) as [E|_].
+    - exfalso. apply H. subst em. apply (Ht m r ty nm n f). left. reflexivity.
+    - cbn [andb]. apply IH. intros m' r' ty' nm' n' f' Hin. apply (Ht m' r' ty' nm' n' f'). right. exact Hin. }
+  apply Hrow. intros m r ty nm n f Hin.
+  unfold psabi_table in Hin. cbn [In] in Hin.
+  repeat (destruct Hin as [Hin|Hin]; [inversion Hin; subst; cbv; tauto|]). contradiction.
+Qed.
+
+Lemma rent_wf_sym_nonneg' is64 m64 rela e : rent_wf is64 m64 rela e = true -> 0 <= r_sym e.
+Proof.
+  intros H. destruct m64; [|destruct is64]; wf_split H; unfold inr in *; lia.
+Qed.
+
+Section unlisted.
+Variables (le is64 : bool) (em : Z) (rela : bool) (symvals : list Z) (symval : Z -> res Z).
+Hypothesis Hem : ~ In em listed_machines.
+Hypothesis Hfam : family_for em rela = None.          (* the code reaches no recipe table for it *)
+Hypothesis Hsymval : forall n, 0 <= n < zlen symvals -> symval n = Ok (nth (Z.to_nat n) symvals 0).
+
+(* one entry: rejected with the relocation error by the code, as the reference demands *)
+Lemma apply_one_unlisted s e :
+  rent_wf is64 (is64 && is_mips em) rela e = true ->
+  do_apply_relocation le is64 em (zlen symvals) symval s (rent_view is64 (is64 && is_mips em) rela e) = Err EReloc
+  /\ spec_apply_one le is64 em rela symvals s e = Err EReloc.
+Proof.
+  intros Hwf.
+  destruct (view_fields is64 (is64 && is_mips em) rela e) as (Vsym & Vtyp & Voff & Vrela & Vadd & Vm).
+  cbv zeta in Vsym, Vtyp, Vrela.
+  split.
+  - destruct (model_reloc_errors le is64 em (zlen symvals) symval s _ _ Vsym) as [Hhi Hlo].
+    destruct (Z.le_gt_cases (zlen symvals) (r_sym e)) as [Hge|Hlt]; [exact (Hhi Hge)|].
+    pose proof (rent_wf_sym_nonneg' _ _ _ _ Hwf) as H0.
+    apply (Hlo (nth (Z.to_nat (r_sym e)) symvals 0) (r_typ e)); try assumption.
+    + apply Hsymval. lia.
+    + rewrite Vrela. exact Hfam.
+  - unfold spec_apply_one. rewrite (psabi_unlisted em rela (r_typ e) Hem).
+    destruct (negb (r_sym e <? zlen symvals)); [reflexivity|].
+    destruct (negb (flavour_ok em rela)); [reflexivity|].
+    destruct ((em =? EM_MIPS) && rela && is64 && (r_typ e =? 18) && mips64_compound e); reflexivity.
+Qed.
+
+(* the loop over a non-empty encoded table stops at the first entry with the relocation error *)
+Lemma apply_loop_unlisted tail e es pre s :
+  forallb (rent_wf is64 (is64 && is_mips em) rela) (e :: es) = true ->
+  apply_loop le is64 em (rel_struct le is64 (is_mips em) rela)
+             (pre ++ encode_table le is64 (is64 && is_mips em) rela (e :: es) ++ tail) (zlen pre)
+             (zlen symvals) symval (length (e :: es)) 0 s
+  = Err EReloc
+  /\ spec_apply_all le is64 em rela symvals s (e :: es) = Err EReloc.
+Proof.
+  intros Hwf. cbn [forallb] in Hwf. apply andb_prop in Hwf. destruct Hwf as [He _].
+  destruct (apply_one_unlisted s e He) as [Hm Hs].
+  split.
+  - cbn [length apply_loop]. unfold get_relocation, struct_parse_at.
+    replace (zlen pre + 0 * sizeof (rel_struct le is64 (is_mips em) rela)) with (zlen pre) by lia.
+    destruct (Z.ltb_spec (zlen pre) 0) as [Hneg|_]; [pose proof (zlen_nonneg pre); lia|].
+    unfold encode_table. cbn [map concat]. rewrite <- app_assoc, zskipn_app.
+    rewrite rent_roundtrip by exact He. cbn [bind]. rewrite Hm. reflexivity.
+  - cbn [spec_apply_all]. rewrite Hs. reflexivity.
+Qed.
+End unlisted.
+
+(* the whole path: a debug section of an object for such a machine, with a non-empty relocation
+   table, is REJECTED by get_dwarf_info(relocate_dwarf_sections=True), not handed out unrelocated *)
+Theorem read_dwarf_section_unsupported_machine le is64 em img secs section rs symtab (rela : bool) e es syms
+        pre tail pre2 tail2 :
+  ~ In em listed_machines -> family_for em rela = None ->
+  find_relocations_for_section secs (s_name section) = Some rs ->
+  s_type rs = (if rela then SHT_RELA else SHT_REL) ->
+  s_entsize rs = rel_entsize is64 (is64 && is_mips em) rela ->
+  nth_error secs (Z.to_nat (s_link rs)) = Some symtab ->
+  s_entsize symtab = sym_entsize is64 -> s_size symtab = zlen (encode_symtab le is64 syms) ->
+  img = pre ++ encode_table le is64 (is64 && is_mips em) rela (e :: es) ++ tail ->
+  s_off rs = zlen pre -> s_size rs = zlen (encode_table le is64 (is64 && is_mips em) rela (e :: es)) ->
+  img = pre2 ++ encode_symtab le is64 syms ++ tail2 -> s_off symtab = zlen pre2 ->
+  forallb (sym_wf is64) syms = true ->
+  forallb (rent_wf is64 (is64 && is_mips em) rela) (e :: es) = true ->
+  read_dwarf_section le is64 em img secs section true = Err EReloc
+  /\ spec_apply_all le is64 em rela (map snd syms)
+                    (firstn (Z.to_nat (s_size section)) (zskipn (s_off section) img)) (e :: es) = Err EReloc.
+Proof.
+  intros Hem Hfam Hfind Htype Hent Hlink Hsent Hssize Himg Hroff Hrsize Himg2 Hsoff Hswf Hwf.
+  destruct (read_dwarf_to_loop le is64 em img secs section rs symtab rela (e :: es) syms pre tail pre2 tail2
+              Hfind Htype Hent Hlink Hsent Hssize Himg Hroff Hrsize Himg2 Hsoff Hswf Hwf) as [Hloop Hsv].
+  rewrite Hloop.
+  exact (apply_loop_unlisted le is64 em rela (map snd syms) _ Hem Hfam Hsv tail e es pre _ Hwf).
+Qed.
+
+(* ------------------------------------------------------------------ S does not depend on the symbol's type *)
+(* a symbol table entry with ANY binding, type (STT_FUNC, STT_OBJECT, STT_SECTION, ...), st_other,
+   section index and size: what the apply loop takes as S is its st_value, unmodified (no Thumb
+   bit stripping, no section-relative adjustment) *)
+Definition sym_any_wf (is64 : bool) (name value size sbind styp ol ov shndx : Z) : bool :=
+  inr 0 (2 ^ 32) name && inr 0 (2 ^ wordbits is64) value && inr 0 (2 ^ wordbits is64) size &&
+  inr 0 16 sbind && inr 0 16 styp && inr 0 8 ol && inr 0 8 ov && inr 0 (2 ^ 16) shndx.
+
+Theorem symbol_value_any_type le is64 name value size sbind styp ol ov shndx pre tail :
+  sym_any_wf is64 name value size sbind styp ol ov shndx = true ->
+  symtab_value le is64
+    (pre ++ encode_layout (spec_Elf_Sym le is64) (sym_vals_of is64 name value size sbind styp ol ov shndx) ++ tail)
+    (zlen pre) (sym_entsize is64) 0
+  = Ok value.
+Proof.
+  intros H. unfold sym_any_wf in H. wf_split H.
+  repeat match goal with Hx : inr _ _ _ = true |- _ => apply inr_iff in Hx end.
+  unfold symtab_value, struct_parse_at.
+  replace (zlen pre + 0 * sym_entsize is64) with (zlen pre) by lia.
+  destruct (Z.ltb_spec (zlen pre) 0) as [Hneg|_]; [pose proof (zlen_nonneg pre); lia|].
+  rewrite zskipn_app, gen_Elf_Sym_gabi, decode_encode_layout.
+  - cbn [bind]. destruct is64; cbv - [Z.add Z.mul]; reflexivity.
+  - destruct is64; unfold fits_layout, spec_Elf_Sym, sym_vals_of, st_info_bits, st_other_bits, wordbits in *;
+      layout_cbn; cbn [fits_bits bits_total fold_right snd Nat.add Nat.mul Nat.eqb];
+      unfold in_urange; norm_consts; lia.
 Qed.
